@@ -27,7 +27,7 @@ def rdata(rng, n):
 HP = 2305843009213693951
 def hashN(bs):
     h = 0
-    for b in bs: h = (h * 257 + b + 1) % HP
+    for b in bs: h = (h * 257 + b + 1) & HP
     return h
 def dcoq(d):
     return '(gd %d %d)' % (d.s, len(d)) if isinstance(d, GD) else hexN(d)
